@@ -6,7 +6,7 @@
     rd = 1; [vM]: the same on block values). *)
 From Coq Require Import ZArith List Bool Lia.
 From Hts Require Import Base.Prim Model.Flat Model.Reader Model.ChunkReader
-  Proofs.ReaderFlat Proofs.ChunkReaderProof Proofs.ClientSim Proofs.BamReplay.
+  Proofs.ReaderFlat Proofs.ChunkReaderProof Proofs.ClientSim Proofs.BamReplay Proofs.IterReplay.
 Import ListNotations.
 Open Scope Z_scope.
 
@@ -82,6 +82,22 @@ Theorem chunk_replay :
           exists b3 l, br_readall (vM F) (S (length mid)) b2 = Ok (b3, l, BEOF) /\ map fst l = map fst rm.
 Proof. exact chunk_replay_proof. Qed.
 Print Assumptions chunk_replay.
+
+(** bam.Iterator (NewIterator + Next until false), same level and hypothesis:
+    for any non-empty list of chunks each running from the Begin of a record
+    to the End of a later record ([rchunk_ok]: the chunk's ends are the canonical
+    offsets of flat positions p and pe, with frames of sizes [rc_sizes] between
+    them) - in ANY order, overlapping or repeated -, and any reader state that is
+    not Blocked: the iteration yields the bodies of the first chunk's records,
+    then those of the second, ..., and ends with io.EOF after exactly that many
+    records. *)
+Theorem iterator_replay :
+  forall (F : file), wf_file F = true -> addressable F = true ->
+  forall (b : bstate (vM F)) (L : list rchunk),
+    simok F (br_s _ b) -> Forall (rchunk_ok F) L -> L <> [] ->
+    exists b', it_run (vM F) (S (nrecs L)) b (map rc_c L) = Ok (b', all_bodies F L, eEOF).
+Proof. exact iterator_replay_proof. Qed.
+Print Assumptions iterator_replay.
 
 (** The offset recorded as End after a read that returned bytes is canonical:
     it is determined by the flat position alone (the block holding the last
